@@ -101,13 +101,16 @@ impl File {
     #[verifier::external_body]
     pub fn create(path: &PathBuf) -> (r: vio::Result<File>)
         requires fs_create_permitted()
-        ensures r matches Ok(f) ==> f.contents() == Seq::<u8>::empty() && f.fresh()
+        ensures r matches Ok(f) ==> f.contents() == Seq::<u8>::empty() && f.fresh() && !f.keeps_existing()
     { unimplemented!() }
     /// the bytes this handle has put into the file since it was opened (ghost)
     pub uninterp spec fn contents(&self) -> Seq<u8>;
     /// the file is KNOWN to have held nothing when it was opened (created anew, or truncated): what the handle writes is
     /// all the file holds.  false = not known (opened without truncate: an existing file keeps its old bytes)
     pub uninterp spec fn fresh(&self) -> bool;
+    /// the bytes the file held when this handle was opened stay where they are, in front of everything the handle writes
+    /// (O_APPEND without truncation: every write goes to the end of the file).  C14
+    pub uninterp spec fn keeps_existing(&self) -> bool;
     /// std::io::Write::write on a file: Ok(n) puts exactly the first n bytes of buf behind what is already there
     #[verifier::external_body]
     pub fn write(&mut self, buf: &[u8]) -> (r: vio::Result<usize>)
@@ -170,6 +173,7 @@ impl OpenOptions {
     pub fn open<P>(&self, path: P) -> (r: vio::Result<File>)
         requires (self.create || self.create_new || self.truncate) ==> fs_create_permitted()
         ensures r matches Ok(f) ==> f.contents() == Seq::<u8>::empty() && (f.fresh() == ((self.truncate && !self.append) || self.create_new))
+            && (f.keeps_existing() == (self.append && !self.truncate))   // write-only without append starts overwriting at offset 0
     { unimplemented!() }
 }
 pub enum Stream { Stdin, Stdout, Stderr }
@@ -213,12 +217,29 @@ impl vstd::std_specs::convert::FromSpecImpl<vio::Error> for AnyhowError {
     open spec fn obeys_from_spec() -> bool { false }
     uninterp spec fn from_spec(e: vio::Error) -> AnyhowError;
 }
+/// C14: the output object is KNOWN to leave the bytes already in its file in place and to put what it writes behind them.
+/// Uninterpreted; established only by boxing a File handle that `keeps_existing()` (v_box_file), so an object from
+/// open_output (OnDemandFile: File::create truncates) or standard output can never be shown to have it.
+pub uninterp spec fn box_keeps_existing(w: Box<dyn VWrite>) -> bool;
+/// `Box::new(file)` coerced to `Box<dyn Write>` (rule R19)
 #[verifier::external_body]
-pub fn v_box_write_all(w: &mut Box<dyn VWrite>, buf: &[u8]) -> (r: vio::Result<()>) { unimplemented!() }
+pub fn v_box_file(f: File) -> (r: Box<dyn VWrite>)
+    ensures box_keeps_existing(r) == f.keeps_existing()
+{ unimplemented!() }
 #[verifier::external_body]
-pub fn v_box_flush(w: &mut Box<dyn VWrite>) -> (r: vio::Result<()>) { unimplemented!() }
+pub fn v_box_write_all(w: &mut Box<dyn VWrite>, buf: &[u8]) -> (r: vio::Result<()>)
+    ensures box_keeps_existing(*final(w)) == box_keeps_existing(*old(w))
+{ unimplemented!() }
 #[verifier::external_body]
-pub fn v_path_exists(p: &String) -> (r: bool) { unimplemented!() }
+pub fn v_box_flush(w: &mut Box<dyn VWrite>) -> (r: vio::Result<()>)
+    ensures box_keeps_existing(*final(w)) == box_keeps_existing(*old(w))
+{ unimplemented!() }
+/// whether a file exists at the path with this text (assumed stable between the two look-ups of one key generation)
+pub uninterp spec fn path_exists(p: Seq<char>) -> bool;
+#[verifier::external_body]
+pub fn v_path_exists(p: &String) -> (r: bool) ensures r == path_exists(p@) { unimplemented!() }
+#[verifier::external_body]
+pub fn v_path_exists_str(p: &str) -> (r: bool) ensures r == path_exists(p@) { unimplemented!() }
 #[verifier::external_body]
 pub fn v_opt_as_deref<'a>(o: &'a Option<String>) -> (r: Option<&'a str>)
     ensures (r is Some) == (o is Some), r matches Some(s) ==> s@ == o.unwrap()@
